@@ -111,6 +111,12 @@ def cases(tier, seed):
     for kind in ALL_BASE_KINDS:
         for ph in PHASES + ('act',):
             yield {'fam': 'kinds', 'base': kind, 'phase': ph}
+    # a program run as an instruction that is TERMINATED BY A SIGNAL: there is no exit code 0 - it is a failure like any
+    # other (FAIL in [assert], HARD_ERROR elsewhere) unless -ignore-exit-code is given
+    for sig in (9, 15, 6, 11, 2, 1):
+        for ph in PHASES:
+            for form in ('shell', 'run-sh', 'pct-sh', 'run-ignore', 'sym'):
+                yield {'fam': 'signal', 'sig': sig, 'phase': ph, 'form': form}
     n_rand = 1000 if tier == 'quick' else 15000
     for i in range(n_rand):
         yield {'fam': 'rand', 'seed': seed, 'i': i}
@@ -1283,7 +1289,64 @@ def _dirs(case, d, sds):
     return P.Dirs(d, sds, os.path.join(d, P.ACT_HOME_DIR) if case.get('split_home') else None)
 
 
+def run_signal(desc, ctx):
+    from vf.driver import first_line
+    ses = ctx.get_session()
+    d = ses.new_case_dir({})
+    marker = os.path.join(d, 'marker')
+    sig, ph, form = desc['sig'], desc['phase'], desc['form']
+    kill = "kill -%d $$" % sig
+    defs = []
+    if form == 'shell':
+        instr = '$ ' + kill
+    elif form == 'run-sh':
+        instr = "run % /bin/sh -c '" + kill + "'"
+    elif form == 'pct-sh':
+        instr = "% /bin/sh -c '" + kill + "'"
+    elif form == 'run-ignore':
+        instr = "run -ignore-exit-code % /bin/sh -c '" + kill + "'"
+    else:
+        defs = ["def program KILLED = % /bin/sh -c '" + kill + "'"]
+        instr = 'run @ KILLED'
+    after = '$ echo after >> ' + marker
+    L = {p: [] for p in ('setup', 'before-assert', 'assert', 'cleanup')}
+    L['setup'] += defs
+    L[ph] += [instr, after]
+    if ph != 'cleanup':
+        L['cleanup'].append('$ echo cleanup >> ' + marker)
+    text = ''.join('[%s]\n%s\n' % (p, '\n'.join(L[p])) for p in ('setup',) if L[p]) + '[act]\n$ true\n' + \
+        ''.join('[%s]\n%s\n' % (p, '\n'.join(L[p])) for p in ('before-assert', 'assert', 'cleanup') if L[p])
+    with open(os.path.join(d, 't.case'), 'w') as f:
+        f.write(text)
+    r = ses.run([os.path.join(d, 't.case')], cwd=d, mode='normal')
+    ctx.count('c10.signal_terminated_programs')
+    viol, inconc = [], []
+    if r.timed_out:
+        inconc.append('watchdog')
+    else:
+        ident = first_line(r.out)
+        got_marker = open(marker).read().split() if os.path.exists(marker) else []
+        if form == 'run-ignore':
+            want, want_marker = ('PASS', 0), ['after'] + (['cleanup'] if ph != 'cleanup' else [])
+        else:
+            want = ('FAIL', 32) if ph == 'assert' else ('HARD_ERROR', 128)
+            want_marker = ['cleanup'] if ph != 'cleanup' else []
+        if r.exc is not None or (ident, r.rc) != want:
+            viol.append({'what': 'C10 [outcome] signal/%s: a program terminated by signal %d in [%s] must give %s/%d, '
+                                 'observed %s/%r' % (form, sig, ph, want[0], want[1], ident, r.rc),
+                         'detail': {'case_text': text, 'mechanism': 'signal', 'observed': r.brief()}})
+        elif got_marker != want_marker:
+            viol.append({'what': 'C10 [outcome] signal/%s: after a program terminated by signal %d in [%s] the '
+                                 'instructions executed were %r, expected %r' % (form, sig, ph, got_marker, want_marker),
+                         'detail': {'case_text': text, 'mechanism': 'signal', 'observed': r.brief()}})
+    ses.clean_tmp()
+    ses.drop(d)
+    return {'classes': [('signal', sig, ph, form)], 'viol': viol, 'inconclusive': inconc, 'evaluations': 1}
+
+
 def run_case(desc, ctx):
+    if desc.get('fam') == 'signal':
+        return run_signal(desc, ctx)
     from vf.driver import first_line
     ses = ctx.get_session()
     b = build(desc)
